@@ -42,6 +42,7 @@ MANIFEST = dict(
 REQUIRED = ["Xmp.Stream." + n for n in (
     "C07_refines", "C07_memCb_legal", "C07_programs", "C07_programs_memCb", "C07_divergence", "C07_read8s_agree",
     "C07_divergence_tail", "C07_D1_repaired", "C07_read8s_after_seek_past", "C07_D2", "C07_D3", "C07_D4", "C07_D5", "C07_D6", "C07_F14_pattern",
+    "C07_eof_guarded", "C07_eof_defined_iff", "C07_eof_after_complete_read",
     "C07_same_core", "C07_entrypoints", "C07_entrypoints_test")]
 
 SENT = "a5"
@@ -613,7 +614,22 @@ def entrypoint_oracle(ck, gen, stats):
     td = tmpdir()
     files = [f for f in vlib.corpus_files() if os.path.getsize(f) <= (600000 if quick else 4000000)]
     synth = synth_files(td) + synth_prowizard(td, ck.seed, quick)
+    # layout-controlled modules: each section in turn stored last, ending at the last byte (c07_layouts.py)
+    import c07_layouts
+    sdir = os.path.join(td, "synth")
+    lay_last = {}
+    for name, b, last in c07_layouts.layouts():
+        pth = os.path.join(sdir, "lay." + name)
+        open(pth, "wb").write(b)
+        synth.append(pth)
+        lay_last[pth] = last
+    sweep = []
+    for name, b in c07_layouts.sweep_modules():
+        pth = os.path.join(sdir, "lay." + name)
+        open(pth, "wb").write(b)
+        sweep.append((pth, len(b)))
     stats["synthetic_inputs"] = len(synth)
+    stats["layout_modules"] = len(lay_last)
     base = [("b%d" % i, f, -1, []) for i, f in enumerate(synth + files)]
     src_of = {c[0]: c for c in base}
     nframes = 3 if quick else 8
@@ -654,6 +670,9 @@ def entrypoint_oracle(ck, gen, stats):
             en = enlarge_mutation(ck.rng, b)
             if en:
                 muts.append((en[0], -1, en[1]))
+        if fmt_file in gen["iff_files"]:
+            for lab, edits in c07_layouts.append_empty_chunk(b):
+                muts.append((lab, -1, edits))
         if src in synth and len(b) > 65536:
             # large synthetic modules: also damage them around the 64 KiB buffer boundary and near the end
             for t in (65535, 65536, 65537, 69632, len(b) - 1, len(b) - 4097, (len(b) + 65536) // 2):
@@ -666,6 +685,13 @@ def entrypoint_oracle(ck, gen, stats):
             mid = "%s.m%d" % (cid, k)
             mut_cases.append((mid, src, trunc, edits))
             src_of[mid] = (mid, src, trunc, edits, label)
+    # every-byte truncation sweep of one small module per core format (all eight entry points at every prefix)
+    for si, (pth, n) in enumerate(sweep):
+        for t in range(1, n):
+            mid = "sw%d.%d" % (si, t)
+            mut_cases.append((mid, pth, t, []))
+            src_of[mid] = (mid, pth, t, [], "sweep@%d" % t)
+        stats["sweep_prefixes"] = stats.get("sweep_prefixes", 0) + n - 1
     for c in regression_cases():
         mut_cases.append(c[:4])
         src_of[c[0]] = c
@@ -714,6 +740,7 @@ WITNESSES = [
     ("D2-fail", "0102", "2 1 0", ["seek 5 0", "tell"], {"C": ["v -1", "v 0"]}),
     ("D3", "0102", "0 1 0", ["seek 0 2", "eof"], {"F": ["v 0", "v 0"], "M": ["v 0", "v 1"], "C": ["v 0", "v 0"]}),
     ("D3-read", "0102", "0 1 0", ["w 2", "eof"], {"F": ["v 513", "v 0"], "M": ["v 513", "v 1"]}),
+    ("eof_after_complete_read", "0007", "0 1 0", ["w 3", "eof"], {"F": ["v 7", "v 0"], "M": ["v 7", "v 1"], "C": ["v 7", "v 0"]}),
     ("D4", "0102", "0 1 0", ["read 0 3", "seek 0 0", "error"], {"F": ["d 0 - -", "v 0", "v 1"], "M": ["d 0 - -", "v 0", "v 0"], "C": ["d 0 - -", "v 0", "v 0"]}),
     ("D5-read0", "01", "0 1 0", ["w 2", "read 1 0", "eof"], {"F": ["v 65535", "d 0 - -", "v 1"], "C": ["v 65535", "d 0 - -", "v 0"]}),
     ("D5-seek", "01", "0 1 0", ["w 2", "seek -1 0", "eof"], {"F": ["v 65535", "v -1", "v 1"], "C": ["v 65535", "v -1", "v 0"]}),
@@ -814,13 +841,16 @@ def run(ck):
                                "data_seek_files": len(gen["data_seek_files"]), "companion_files": gen["companion_files"]})
     # the translator-generated premise is built on its own: if it breaks (somebody new looks inside a handle)
     # the rest of the check still runs and searches for a failing input
-    gen_req = ["Xmp.Gen.HioUsers.hioUsers_known", "Xmp.Gen.HioUsers.hioUsers_no_loader", "Xmp.Gen.HioUsers.hioUsers_no_field"]
+    gen_req = ["Xmp.Gen.HioUsers.hioUsers_known", "Xmp.Gen.HioUsers.hioUsers_no_loader", "Xmp.Gen.HioUsers.hioUsers_no_field",
+               "Xmp.Gen.HioUsers.eofSites_known", "Xmp.Gen.HioUsers.eofSites_no_untested"]
     ok_gen, out_gen = vlib.lean_build(["XmpModel.Gen.HioUsers"])
     if not ok_gen:
         errs = re.findall(r"error: (\S+?):(\d+):\d+: ([^\n]*)", out_gen)
-        ck.unproved("theorem Xmp.Gen.HioUsers.hioUsers_known / hioUsers_no_loader (premise: loaders touch the handle only through hio_*)",
-                    "generated list no longer satisfies the allowed classes: users=%s ; %s" % (
+        ck.unproved("theorem Xmp.Gen.HioUsers.hioUsers_known / eofSites_known (premises: loaders touch the handle only through hio_*; "
+                    "every hio_eof use is a reviewed one)",
+                    "generated lists no longer satisfy the allowed classes: users=%s eof sites=%s ; %s" % (
                         ["%s:%s:%s" % (u["file"], u["func"], u["kind"]) for u in gen["hio_users"]],
+                        ["%s:%s:%s x%d" % (e["file"], e["func"], e["use"], e["count"]) for e in gen["eof_sites"]],
                         "; ".join("%s:%s %s" % e for e in errs[:2])))
     ck.proofs(["XmpProps.C07"] + (["XmpModel.Gen.HioUsers"] if ok_gen else []),
               required=REQUIRED + (gen_req if ok_gen else []), drivers=["drv_c07"])
